@@ -11,6 +11,7 @@ ares_query_t  *RQ_query[M_MAXCALLS];
 ares_status_t  RQ_status[M_MAXCALLS];
 ares_bool_t    RQ_inc[M_MAXCALLS];
 int            RQ_deferred[M_MAXCALLS];
+size_t         RQ_srvfail[M_MAXCALLS];
 int            RQ_resent[MAXTOK];
 
 ares_status_t ares_requeue_query(ares_query_t *query, const ares_timeval_t *now, ares_status_t status,
@@ -26,6 +27,7 @@ ares_status_t ares_requeue_query(ares_query_t *query, const ares_timeval_t *now,
   RQ_status[RQ_calls]   = status;
   RQ_inc[RQ_calls]      = inc_try_count;
   RQ_deferred[RQ_calls] = requeue != NULL;
+  RQ_srvfail[RQ_calls]  = (query->conn != NULL) ? query->conn->server->consec_failures : 0;
   RQ_calls++;
   /* leaves its connection and the timeout index */
   ares_slist_node_destroy(query->node_queries_by_timeout);
